@@ -15,6 +15,7 @@ static const char *CG_DELIMS[7] = { "=", ":=", " ", " \t", " =", "\t =", "" };
 static const char *CG_COMMENTS[3] = { "#", ";", "#;" };
 #define CG_NCFG 21
 #define CG_NCFG_WITH_DEFAULT_COMMENT 28
+#define CG_NCFG_WITH_ODD_COMMENT 31
 
 static int cg_cur_cfg = -1;
 static void cg_build_tables(void);
@@ -23,7 +24,8 @@ static void cg_set_cfg(int idx)
   if (idx == cg_cur_cfg) return;
   cg_cur_cfg = idx;
   cg.D = CG_DELIMS[idx % 7];
-  if (idx >= 21) { cg.C = "#"; cg.Carg = ""; }      /* configurations 21..27: the empty comment set, documented to mean '#' */
+  if (idx >= 28) { static const char *ODDC[3] = { "[", "#[", "\"#" }; cg.D = "="; cg.C = cg.Carg = ODDC[idx - 28]; }   /* 28..30: comment characters that also start another syntactic element (only for differential oracles) */
+  else if (idx >= 21) { cg.C = "#"; cg.Carg = ""; }      /* configurations 21..27: the empty comment set, documented to mean '#' */
   else { cg.C = CG_COMMENTS[idx / 7]; cg.Carg = cg.C; }
   int ws = 0, nws = 0; cg.dn = 0;
   for (const char *p = cg.D; *p; p++) { if (*p == ' ' || *p == '\t') ws = 1; else { nws = 1; if (!cg.dn) cg.dn = *p; } }
